@@ -415,6 +415,9 @@ func (g *G) gen(ctx []vr, a *Ty, fuel int) Term {
 			y := g.fresh("f")
 			return &New{X: y, XT: x.t, Ann: true, Body: &Fwd{From: x.n, T: x.t}, K: g.gen(with(rest, vr{y, x.t}), a, fuel-1)}
 		})
+		if pk := g.parked(x, rest, a, fuel); pk != nil {
+			acts = append(acts, pk)
+		}
 		// calls of earlier definitions whose first parameter has x's type; further parameters are
 		// taken from the context when a variable of the right type is there, else freshly made
 		for _, s := range g.sigs {
@@ -492,6 +495,73 @@ func (g *G) gen(ctx []vr, a *Ty, fuel int) Term {
 		}
 	}
 	return g.pr(acts[g.intn(len(acts))]())
+}
+
+// parked builds `c <- new pk(x); K` where the fresh definition pk first receives on its own
+// channel (its type N is negative) and then ends in a tail axiom of a negative left rule on x
+// (x.l<self>, send x<w, self>, cast x<self>): while pk is parked it holds x with an action still
+// pending. K now and then drops c straight away - "dropping a channel reclaims its provider and
+// everything only it depended on". (The real checker accepts only axioms and calls as cut bodies,
+// hence the definition.)
+func (g *G) parked(x vr, rest []vr, a *Ty, fuel int) func() Term {
+	u := g.unf(x.t)
+	var A *Ty
+	var ax func() Term
+	switch u.K {
+	case KWith:
+		if x.t.M != g.base {
+			return nil
+		}
+		b := u.Brs[g.intn(len(u.Brs))]
+		A = b.T
+		ax = func() Term { return &Sel{To: "x", Label: b.L, Cont: "self"} }
+	case KLolli:
+		if x.t.M != g.base {
+			return nil
+		}
+		A = u.R
+		ax = func() Term {
+			w := g.fresh("y")
+			return g.newCall(w, u.L, g.maker(u.L), nil, &Send{To: "x", Payload: w, Cont: "self"})
+		}
+	case KUp:
+		if u.From != g.base {
+			return nil
+		}
+		A = u.L
+		ax = func() Term { return &Cast{To: "x", Cont: "self"} }
+	default:
+		return nil
+	}
+	return func() Term {
+		var n *Ty
+		var body Term
+		g.push()
+		if g.intn(2) == 0 {
+			b := g.unit(g.base)
+			if g.intn(2) == 1 {
+				b = g.nat(g.base)
+			}
+			y, z := g.fresh("y"), g.fresh("z")
+			n = &Ty{K: KLolli, M: g.base, L: b, R: A}
+			body = &Recv{X: y, Y: z, From: "self", XT: b, YT: A, K: g.alias(g.consume(vr{y, b}, ax), z)}
+		} else {
+			n = &Ty{K: KWith, M: g.base, Brs: []Br{{"a", A}, {"b", A}}}
+			z1, z2 := g.fresh("z"), g.fresh("z")
+			body = &Case{From: "self", Brs: []Branch{{"a", z1, A, g.alias(g.pr(ax()), z1)}, {"b", z2, A, g.alias(g.pr(ax()), z2)}}}
+		}
+		g.pop()
+		f := g.fresh("pk")
+		g.prog.Defs = append(g.prog.Defs, &Def{Name: f, Params: []Param{{"x", x.t}}, Res: n, Body: g.pr(body)})
+		c := g.fresh("c")
+		var k Term
+		if canDrop(g.base) && g.intn(3) == 0 {
+			k = &Drop{X: c, T: n, K: g.gen(rest, a, fuel-1)}
+		} else {
+			k = g.gen(with(rest, vr{c, n}), a, fuel-1)
+		}
+		return g.newCall(c, n, f, []string{x.n}, k)
+	}
 }
 
 func (g *G) finish(ctx []vr, a *Ty) Term {
